@@ -326,3 +326,35 @@ def calls_in(node):
 
 def closures_in(node):
     return [n["def"] for n in walk(node) if n.get("k") == "closure"]
+
+
+def pat_str(p):
+    """compact rendering of a pattern: Ok(true), Err(_), Running{..}, "lit", A | B"""
+    k = p["k"]
+    if k in ("wild", "missing"):
+        return "_"
+    if k == "bind":
+        return pat_str(p["sub"]) if "sub" in p else "_"
+    if k in ("deref", "derefpat", "guard"):
+        return pat_str(p["p"])
+    if k == "or":
+        return " | ".join(pat_str(q) for q in p["ps"])
+    if k == "variant":
+        subs = [pat_str(sp) for _, sp in p["sub"]]
+        if not subs:
+            return p["v"]
+        if all(x == "_" for x in subs):
+            return p["v"] + "(_)"
+        return "%s(%s)" % (p["v"], ", ".join(subs))
+    if k == "leaf":
+        subs = [pat_str(sp) for _, sp in p["sub"]]
+        return "(%s)" % ", ".join(subs)
+    if k == "const":
+        for key in ("s", "i", "b"):
+            if key in p:
+                v = p[key]
+                return ("true" if v else "false") if isinstance(v, bool) else repr(v)
+        return "const"
+    if k == "range":
+        return "%s..%s" % (p["lo"], p["hi"])
+    return k
